@@ -19,7 +19,7 @@ def seed_table():
     rows = ["| seed | file | change | caught by (rule key) |", "|---|---|---|---|"]
 
     def order(k):
-        m = re.match(r"C(\d+)-(b?)(\d+)", k)
+        m = re.match(r"C(\d+)-([a-z]?)(\d+)", k)
         return (int(m.group(1)), m.group(2), int(m.group(3))) if m else (99, k, 0)
     for sid in sorted(os.listdir(os.path.join(ROOT, "seeded")), key=order):
         mp = os.path.join(ROOT, "seeded", sid, "meta.json")
